@@ -71,8 +71,8 @@ Theorem C02_reparses_def : forall ts, reparses ts <->
   forall v, ground v -> exists v',
     advance v (ser_all ts) = (v', flat_map acts_of ts) /\ ground v' /\
     forall r l rz,
-      process (mkParser v r l rz) (ser_all ts) =
-      (do '(r', evs) <- perform_all rz r (flat_map acts_of ts) []; Ok (mkParser v' r' (l ++ evs) rz)).
+      process (mkParser v r l rz []) (ser_all ts) =
+      (do '(r', evs) <- perform_all rz r (flat_map acts_of ts) []; Ok (mkParser v' r' (l ++ evs) rz [])).
 Proof. intros ts. reflexivity. Qed.
 Print Assumptions C02_reparses_def.
 
@@ -81,8 +81,8 @@ Theorem C02_bytes : forall s p ts v,
   exists v',
     advance v (ser_all ts) = (v', flat_map acts_of ts) /\ ground v' /\
     forall r l rz,
-      process (mkParser v r l rz) (ser_all ts) =
-      (do '(r', evs) <- perform_all rz r (flat_map acts_of ts) []; Ok (mkParser v' r' (l ++ evs) rz)).
+      process (mkParser v r l rz []) (ser_all ts) =
+      (do '(r', evs) <- perform_all rz r (flat_map acts_of ts) []; Ok (mkParser v' r' (l ++ evs) rz [])).
 Proof. intros s p ts v H1 H2 H3 H4 E. exact (contents_diff_reparses s p ts H1 H2 H3 H4 E v). Qed.
 Print Assumptions C02_bytes.
 
